@@ -115,7 +115,7 @@ pub fn run(ctx: &mut Ctx) {
     // libsimplicity reads the witness stream with its own type-directed reader
     {
         let mut done = 0;
-        let want = ctx.scale(120, 4000);
+        let want = ctx.scale(1000, 12_000);
         for _ in 0..20 * want {
             if done >= want {
                 break;
